@@ -14,9 +14,30 @@ CLAIMED = {
  "C06": ("proof", "Theorems C06_*: the scheduler's candidate set equals the spec's ready set and every start/skip is a maximum of the compound-priority table attached to the executed graph. K-sched + shadow-ready-set monitor. 'finished' = observed by the scheduler (D-c).", "6 C06"),
  "C08": ("proof", "Partial: C08_block_only_when_justified_partial proved for all runs with the F9 exception made explicit, unconditional for single-kind DAGs; C08_..._refuted is the machine-checked witness of the exception, replayed on the implementation as KNOWN-FINDING F9. K-sched + monitor at every wait.", "6 C08"),
  "C09": ("proof", "Theorems C09_*: strictly decreasing measure, run length <= 32|nodes|+6, progress, never two empty waits in a row, finished => everything ran. K-sched + watchdog. OS-level liveness of threads / event loop outside the model.", "6 C09"),
+ "C01": ("proof", "Theorems C01_* (for every value type, node table, configuration, schedule): every scheduler run computes the denotation of the node table; all schedules agree; the denotation equals sequential plain evaluation in any dependency order; scheduling parameters do not occur in the denotation. The build half (node table = what the describing function denotes) is tied by K-value: DAG value vs plain-Python evaluation of the same generated describing function vs denotation of the table the implementation built, under random configurations (dict/JSON/YAML), both flavours, controlled schedules.", "6 C01"),
+ "C07": ("proof", "Theorems C07_*: cprio = own + sum over any duplicate-free enumeration of the reachable set; independence from container iteration order (hash seed); unique run with max_concurrency=1 and injective priorities; machine-checked refutation of the pinned commit's algorithm (F1, fixed). K-graph: implementation table vs model on random non-tree DAGs, executor sub-graph tables, sub-processes under several PYTHONHASHSEEDs (tables and execution order).", "6 C07"),
+ "C10": ("proof", "Theorems C10_*: the flag test's outcome is the truthiness of the denotation of the referenced value with its key path; falsy => result None, never started; truthy => started exactly once; dependents run. Nested-DAG propagation is tied by K-value (flag forms x values, nested depth 3) against the plain reference; exception F13 is a known finding.", "6 C10"),
+ "C12": ("proof", "Theorems C12_*: exact characterisation of the selected node set by reachability in the full graph (under the property's hypothesis on excluded nodes), ValueError iff conditions, subset/NoDup. K-graph: executor graphs for random (R, X, T) through id / tag / reference aliases incl. error paths, executed node sets.", "6 C12"),
+ "C13": ("proof", "Theorems C13_*: flag off => no debug node in executor / call / setup graphs; flag on => call runs all, pulled debug nodes have all inputs in the executed graph; values of non-debug nodes identical in both settings (SelectSpec.debug_does_not_change_values). K-graph under both settings.", "6 C13"),
  "C14": ("proof", "Theorems C14_*: the run ends with the first inspected failure, nothing accepted afterwards, no transitive dependent of a failed/unfinished node ever started, removals always target graph roots (no internal error). Exception wrapping (node id, location, cause) checked by the monitor on every failing run.", "6 C14"),
 }
+NOTES = {
+ "C01": "trusted: Coq kernel + vm_compute; hand-written models (Sched.v, Dataflow.v, Terms.v); harness (generated describing functions, plain-Python reference, canonicalisation); node table read from the implementation (layering); pure node functions. Axioms: none.",
+ "C07": "trusted: Coq kernel + vm_compute; Priority.v / Graph.v models; networkx descendants as modelled by the fuelled closure (proved equal to reachability); harness. Axioms: none.",
+ "C10": "trusted: as C01. Python truthiness / __getitem__ modelled abstractly (truthy, index).",
+ "C12": "trusted: Coq kernel + vm_compute; Select.v / Graph.v models of make_subgraph / networkx dfs_tree, ancestors, subgraph; harness; alias resolution model. Axioms: none.",
+ "C13": "trusted: as C12; RUN_DEBUG_NODES read from tawazi.cfg at executor construction / call time.",
+}
 TECH = "Coq proof over an executable scheduler LTS + trace-acceptance correspondence (vm_compute in coqc) against controlled runs of the real code"
+
+TECHS = {
+ "C01": "Coq proof (denotation = every schedule = sequential evaluation) + differential correspondence of generated describing functions (tawazi vs plain Python vs model evaluated in coqc)",
+ "C07": "Coq proof over a model of assign_compound_priority + table correspondence under several hash seeds",
+ "C10": "Coq proof over the valued scheduler LTS + differential correspondence over all flag forms",
+ "C12": "Coq proof over a model of make_subgraph (closure = reachability) + node-set correspondence (vm_compute in coqc)",
+ "C13": "Coq proof over the model of debug-node selection + node-set correspondence under both flag settings",
+}
+
 
 def main():
     checks = []
@@ -26,7 +47,7 @@ def main():
         checks.append(dict(property_id=i, quick_cmd="./check %s --tier quick" % i, thorough_cmd="./check %s --tier thorough" % i,
                            evidence_file="/verif/evidence/%s.json" % i, replay_cmd_template="./check %s --replay {path}" % i,
                            engine="coq+correspondence", level_claimed=dict(category=cat, text=text, design_ref="DESIGN.md section " + ref),
-                           level_note=NOTE_SCHED, technique=TECH))
+                           level_note=NOTES.get(i, NOTE_SCHED), technique=TECHS.get(i, TECH)))
     m = dict(version=1,
              setup_cmd="cd /verif/coq && coq_makefile -f _CoqProject -o Makefile && make -j16",
              hooks=dict(guard="TAWAZI_VERIF_HARNESS", enable="no source hooks: the harness process (never the test suite) rebinds module globals of tawazi._dag.helpers, DiGraphEx.remove_root_node and ExecNode.execute at run time",
